@@ -167,7 +167,9 @@ class Ctx:
             self._tlcn = getattr(self, "_tlcn", 0) + 1
             n = self._tlcn
         meta = os.path.join(self.tmp, "meta%d" % n)
-        cmd = ["java", "-XX:+UseParallelGC", "-Xmx" + heap, "-Xss64m"]
+        jtmp = os.path.join(self.tmp, "jtmp")       # TLC leaves an empty tlc-* directory per run in java.io.tmpdir
+        os.makedirs(jtmp, exist_ok=True)
+        cmd = ["java", "-XX:+UseParallelGC", "-Xmx" + heap, "-Xss64m", "-Djava.io.tmpdir=" + jtmp]
         if workers == 1:
             cmd += ["-XX:ParallelGCThreads=2"]
         cmd += ["-cp", "/opt/veriftools/tla/tla2tools.jar:/opt/veriftools/tla/CommunityModules-deps.jar",
